@@ -112,4 +112,4 @@ package msgpack
 //
 //@ func msgpack.preallocLen
 //@   tags C17
-//@   ensures[C17] bounded: (and (<= result 1024) (<= result length) (=> (<= length 1024) (= result length)))
+//@   ensures[C17] bounded: (= result (ite (> length 1024) 1024 length))
